@@ -246,14 +246,18 @@ def sym_item_segments(key, dims='full'):
     fn_name = {'a': 'f0', 'b': 'f1', 'c': 'f2'}.get(key[-1], 'f0')
     attrs = seg(key + '.attrs', [[], [('P', '#'), ('G', '[', [I_('inline')])], [('P', '#'), ('G', '[', [I_('cfg'), ('G', '(', [I_('any'), ('G', '(', [])])])]],
                 ['no attr', '#[inline]', '#[cfg(any())]'])
-    vis = seg(key + '.vis', [[], [I_('pub')], [I_('pub'), ('G', '(', [I_('crate')])]], ['private', 'pub', 'pub(crate)'])
+    vis = seg(key + '.vis', [[], [I_('pub')], [I_('pub'), ('G', '(', [I_('crate')])], [I_('pub'), ('G', '(', [I_('self')])],
+                             [I_('pub'), ('G', '(', [I_('in'), I_('self')])]],
+              ['private', 'pub', 'pub(crate)', 'pub(self)', 'pub(in self)'])
     q_const = seg(key + '.const', [[], [I_('const')]], ['', 'const'])
     q_async = seg(key + '.async', [[], [I_('async')]], ['', 'async'])
     q_unsafe = seg(key + '.unsafe', [[], [I_('unsafe')]], ['', 'unsafe'])
     q_abi = seg(key + '.abi', [[], [I_('extern')], [I_('extern'), ('L', '"C"')]], ['', 'extern', 'extern "C"'])
     params = seg(key + '.params', [[('G', '(', list(PAREN_GROUPS['(deps: &impl B0)']))], [('G', '(', list(PAREN_GROUPS['(deps: &impl B0, p1: u32)']))],
                                     [('G', '(', list(PAREN_GROUPS['(deps: &impl B0, #[allow(unused)] p1: u32)']))]], ['(deps)', '(deps, p1)', '(deps, #[allow(unused)] p1)'])
-    ret = seg(key + '.ret', [[], [('P', '->'), I_('u32')]], ['', '-> u32'])
+    ret = seg(key + '.ret', [[], [('P', '->'), I_('u32')],
+                             [('P', '->'), I_('impl'), I_('Iterator'), ('P', '<'), I_('Item'), ('P', '='), I_('u32'), ('P', '>')]],
+              ['', '-> u32', '-> impl Iterator<Item = u32>'])
     term = seg(key + '.term', [[('G', '{', [])], [('P', ';')], [('G', '{', list(BRACE_GROUPS['{ fn inner() {} }']))]], ['{}', ';', '{ fn inner() {} }'])
     fn_item = [q_const, q_async, q_unsafe, q_abi, I_('fn'), I_(fn_name), params, ret, term]
     if dims == 'reduced':
@@ -947,7 +951,11 @@ def parse_signature(ex, pb):
     t = tok_at(ex, pb)
     if t == END or tk_group_delim(ex, t) != '(':
         return err(pb, 'expected parentheses')
-    inputs = build_inputs(ex, tk_group_content(ex, t))
+    content = tk_group_content(ex, t)
+    if [(x[0], x[1]) for x in content] == [('I', 'crate')]:
+        # `fn f(crate)`: syn reads a path pattern and then misses the `:` of a typed parameter
+        return err(pb, 'expected `:`')
+    inputs = build_inputs(ex, content)
     if inputs is None:
         raise Unsupported('signature model: parameter list outside the modelled alphabet')
     pb.pos += 1
@@ -956,10 +964,28 @@ def parse_signature(ex, pb):
     if punct_is(ex, t, '->'):
         t2 = tok_at(ex, pb, 1)
         rn = ident_name(ex, t2)
-        if rn is None:
+        if rn is None and not ident_is(ex, t2, 'impl'):
             return err(pb, 'expected type', 1)
-        pb.pos += 2
-        output = A.return_type(A.type_path_ident(Ident(rn, Span(('input', 'ret')), 'input')))
+        if ident_is(ex, t2, 'impl'):
+            # `impl Trait<Assoc = T>`: taken verbatim up to the body / `;` (angle brackets balanced)
+            toks, k, depth = [], 1, 0
+            while True:
+                x = tok_at(ex, pb, k)
+                if x == END or (depth == 0 and (tk_group_delim(ex, x) == '{' or punct_is(ex, x, ';') or ident_is(ex, x, 'where'))):
+                    break
+                if punct_is(ex, x, '<'):
+                    depth += 1
+                elif punct_is(ex, x, '>'):
+                    depth -= 1
+                toks.append(view_tok(x) if isinstance(x, tuple) else tk_flat(x, lambda s_: ex.force(s_), lambda n_: n_)[0])
+                k += 1
+            if depth != 0 or len(toks) < 2:
+                return err(pb, 'expected type', 1)
+            pb.pos += k
+            output = A.return_type(A.type_verbatim(toks))
+        else:
+            pb.pos += 2
+            output = A.return_type(A.type_path_ident(Ident(rn, Span(('input', 'ret')), 'input')))
     sig = A.node('Signature', constness=Some(Tok('Const')) if flags.get('const') else NONE(), asyncness=Some(Tok('Async')) if flags.get('async') else NONE(),
                  unsafety=Some(Tok('Unsafe')) if flags.get('unsafe') else NONE(), abi=abi, ident=ident, generics=A.generics([], None),
                  inputs=Punct(inputs, 'Comma'), variadic=NONE(), output=output)
@@ -1002,11 +1028,22 @@ def parse_item_trait(ex, pb):
     t = tok_at(ex, pb)
     if t == END or tk_group_delim(ex, t) != '{':
         return err(pb, 'expected curly braces')
-    if tk_group_content(ex, t):
-        raise Unsupported('trait-body model: only an empty body')
+    body = tk_group_content(ex, t)
+    items = []
+    if body:
+        flat = [(x[0], x[1]) for x in body]
+        if flat[:2] == [('I', 'fn'), ('I', 'inner')] and len(body) == 4 and body[2][0] == 'G' and body[2][1] == '(' and not body[2][2] \
+                and body[3][0] == 'G' and body[3][1] == '{':
+            # `{ fn inner() {} }`: one provided method without receiver
+            sig = A.node('Signature', constness=NONE(), asyncness=NONE(), unsafety=NONE(), abi=NONE(), ident=Ident('inner', Span(('input', 't')), 'input'),
+                         generics=A.generics([], None), inputs=Punct([], 'Comma'), variadic=NONE(), output=A.return_default())
+            items.append(A.enum('TraitItem', 'Fn', A.node('TraitItemFn', attrs=VecObj([]), sig=sig,
+                                                          default=Some(Obj('Opaque', None, ['block', [('G', '{', [], 'input')]])), semi_token=NONE())))
+        else:
+            raise Unsupported('trait-body model: only an empty body or `{ fn inner() {} }`')
     pb.pos += 1
     return Ok(A.node('ItemTrait', vis=A.vis_inherited(), unsafety=NONE(), auto_token=NONE(), restriction=NONE(), ident=Ident(nm, Span(('input', 't')), 'input'),
-                     generics=A.generics([], None), colon_token=NONE(), supertraits=Punct([], 'Plus'), items=VecObj([])))
+                     generics=A.generics([], None), colon_token=NONE(), supertraits=Punct([], 'Plus'), items=VecObj(items)))
 
 
 ITEM_PARSERS.update({'Signature': parse_signature, 'Abi': parse_abi, 'Path': parse_path, 'Type': parse_type, 'ItemTrait': parse_item_trait})
@@ -1038,6 +1075,8 @@ def ref_items(ex, cells, pub_only=True):
                 c = tk_group_content(ex, t2)
                 if len(c) == 1 and c[0][0] == 'I' and c[0][1] in ('crate', 'self', 'super'):
                     pb.pos += 1
+                elif len(c) >= 2 and c[0] == ('I', 'in') and all(x[0] == 'I' or x == ('P', '::') for x in c[1:]):
+                    pb.pos += 1   # pub(in path)
                 else:
                     return ('unspecified', 'pub followed by a group that is not a visibility restriction')
         save = pb.pos
@@ -1061,9 +1100,21 @@ def ref_items(ex, cells, pub_only=True):
                 return ('unspecified', 'fn without a parameter list')
             pb.pos += 1
             if punct_is(ex, tok_at(ex, pb), '->'):
-                if ident_name(ex, tok_at(ex, pb, 1)) is None:
+                if ident_is(ex, tok_at(ex, pb, 1), 'impl'):
+                    k, depth = 1, 0
+                    while True:
+                        x = tok_at(ex, pb, k)
+                        if x == END or (depth == 0 and (tk_group_delim(ex, x) == '{' or punct_is(ex, x, ';'))):
+                            break
+                        depth += 1 if punct_is(ex, x, '<') else (-1 if punct_is(ex, x, '>') else 0)
+                        k += 1
+                    if depth != 0 or k < 3:
+                        return ('unspecified', 'malformed return type')
+                    pb.pos += k
+                elif ident_name(ex, tok_at(ex, pb, 1)) is None:
                     return ('unspecified', 'missing return type')
-                pb.pos += 2
+                else:
+                    pb.pos += 2
             t = tok_at(ex, pb)
             if punct_is(ex, t, ';'):
                 pb.pos += 1
@@ -1154,3 +1205,21 @@ def attr_item_cells(target, k, head, reduced=False):
         lead = [('P', ',')] if (head or j > 0) else []
         cells.append(seg(f'opt[{j}]', [[]] + [lead + list(toks) for _, toks in items], ['(end)'] + [lbl for lbl, _ in items]))
     return cells
+
+
+@model('Punct::spacing')
+def _punct_spacing(ex, c, a):
+    """a multi-character punctuation token stands for its first character here: Joint; a single character: Alone"""
+    p = deref(a[0])
+    ch = p.fields[0]
+    if isinstance(ch, Obj):
+        ch = tk_punct(ex, ch)
+        if not isinstance(ch, str):
+            raise Unsupported('Punct::spacing of a symbolic punctuation')
+    return Obj('Spacing', 'Joint' if len(ch) > 1 else 'Alone', [])
+
+
+@model('<Spacing as PartialEq>::eq', '<Spacing as PartialEq>::ne')
+def _spacing_eq(ex, c, a):
+    same = deref(a[0]).variant == deref(a[1]).variant
+    return same if c.method == 'eq' else not same
